@@ -60,7 +60,7 @@ JudgeOnModel(e) ==
   IF e.h = 0 THEN Judge(e)
   ELSE IF e.h \notin DOMAIN handles THEN <<"INFRA: factory event refers to a handle the specification does not have", ToString(e.h)>>
   ELSE IF Join(handles[e.h]) # KsOf(e)
-    THEN <<"the keyset the factory was given is not the handle the specification reaches after this history",
+    THEN <<"INFRA(C11): the keyset the factory was given is not the handle KeysetManager.tla reaches after this history",
            ToString(Join(handles[e.h]))>>
   ELSE Judge(e)
 
